@@ -14,6 +14,7 @@ var registry = map[string]func() core.Engine{
 	"C10": func() core.Engine { return &C10{} },
 	"C11": func() core.Engine { return &C11{} },
 	"C12": func() core.Engine { return &C12{} },
+	"C13": func() core.Engine { return &C13{} },
 	"C14": func() core.Engine { return &C14{} },
 	"C15": func() core.Engine { return &C15{} },
 }
